@@ -222,6 +222,22 @@ func vfHxSeq(t *testing.T, sc *vfHxScript, out *vfWriter) {
 
 			continue
 		}
+		if st.A == "cycle" {
+			// every stream is removed (for a moment the interceptor has no stream at all), then all of them are bound again
+			// under the ids they had: the transport-wide numbering belongs to the interceptor, not to its streams
+			for _, x := range sc.Streams {
+				if cur := streams[x.S]; cur != nil {
+					hx.UnbindLocalStream(cur.info)
+				}
+			}
+			for _, x := range sc.Streams {
+				if cur := streams[x.S]; cur != nil {
+					bind(x.S, cur.id, 0)
+				}
+			}
+
+			continue
+		}
 		if b == nil || st.A != "write" {
 			t.Fatalf("VERIF-INFRA bad step %+v", st)
 		}
